@@ -128,6 +128,57 @@ class RecPublisher(Publisher, Subscription):
         self.subscriber.on_error(exc)
 
 
+class SyncPublisher(Publisher, Subscription):
+    """Application publisher that emits synchronously from inside request(n) (a burst per credit), completing with the flag on
+    its last element, or with a separate on_complete when `flag` is False; an empty source completes inside the first request."""
+
+    def __init__(self, w, ep, name, items, flag=True):
+        self.w, self.ep, self.name = w, ep, name
+        self.items = list(items)
+        self.flag = flag
+        self.pos = 0
+        self.subscriber = None
+        self.cancelled = 0
+        self.done = False
+        self.requests = []
+        self._emitting = False
+        self._pending = 0
+
+    def subscribe(self, subscriber):
+        self.subscriber = subscriber
+        self.w.api(self.ep, self.name, 'subscribe', ())
+        subscriber.on_subscribe(self)
+
+    def request(self, n):
+        self.requests.append(n)
+        self.w.api(self.ep, self.name, 'request', (n,))
+        self._pending += n
+        if self._emitting:
+            return  # re-entrant request from inside on_next: served by the running loop
+        self._emitting = True
+        try:
+            while self._pending > 0 and not self.cancelled and not self.done:
+                if self.pos >= len(self.items):
+                    self.done = True
+                    self.w.api(self.ep, self.name, 'emit-complete', ())
+                    self.subscriber.on_complete()
+                    break
+                self._pending -= 1
+                item = self.items[self.pos]
+                self.pos += 1
+                last = self.flag and self.pos == len(self.items)
+                if last:
+                    self.done = True
+                self.w.api(self.ep, self.name, 'emit', (pl(item), last))
+                self.subscriber.on_next(item, last)
+        finally:
+            self._emitting = False
+
+    def cancel(self):
+        self.cancelled += 1
+        self.w.api(self.ep, self.name, 'cancel', ())
+
+
 class RecHandler(BaseRequestHandler):
     """Recording RequestHandler. `beh` maps method name -> callable(handler, payload) implementing the application."""
 
